@@ -14,7 +14,7 @@ import (
 	"time"
 
 	"github.com/openconfig/gnmi/client"
-	_ "github.com/openconfig/gnmi/client/gnmi"
+	gclient "github.com/openconfig/gnmi/client/gnmi"
 	pb "github.com/openconfig/gnmi/proto/gnmi"
 	tpb "github.com/openconfig/gnmi/proto/target"
 	"github.com/openconfig/gnmi/value"
@@ -30,6 +30,16 @@ type stats struct {
 	sharedServer, sharedRequest, cliChecked, retried     bool
 	cliKeyedQuery, replaceNoti                           bool
 	leaves                                               int
+	// what the scripts contain beyond single updates and deletes
+	atomic, atomicResent, atomicTailChanged, group, groupResent, padded, breakLoses bool
+	fill, breaks                                                                    int
+	breakVia, aimed                                                                 map[string]bool
+	lastAwait                                                                       string // the op before the one being interpreted was an await for this event
+	aimedBig                                                                        bool
+	// what the observers that lived while the scripts played went through (schedule dependent; labels only)
+	observers                                                                     int
+	slowObserver, paused, coalesced, coalescedAtPaused, coalescedAtomic           bool
+	wildBeforeSync, whileDown, pauseByBound, boundHit, lateObserver, reconnected bool
 }
 
 func (s *stats) nontrivial() bool {
@@ -58,6 +68,36 @@ func (s *stats) labels() []string {
 	add(s.replaceNoti, "notification-with-delete-and-updates")
 	add(s.retried, "rerun-after-slow-quiescence")
 	add(s.leaves == 0, "empty-final-state")
+	add(s.atomic, "atomic-notification")
+	add(s.atomicResent, "atomic-notification-sent-again")
+	add(s.atomicTailChanged, "atomic-sent-again-with-a-later-update-changed")
+	add(s.group, "notification-with-several-updates")
+	add(s.groupResent, "several-updates-notification-sent-again")
+	add(s.padded, "large-values")
+	add(s.fill >= 1000, "bulk-state>=1000-leaves")
+	add(s.breaks > 0, "target-stream-breaks")
+	add(s.breaks > 1, "target-stream-breaks-twice")
+	for v := range s.breakVia {
+		l = append(l, "stream-break-via-"+v)
+	}
+	for v := range s.aimed {
+		l = append(l, "stream-break-when-an-attaching-observer-reached-"+v)
+	}
+	add(s.aimedBig, "stream-break-at-first-update-of-a-walk-over>=1000-leaves")
+	add(s.breakLoses, "leaves-lost-while-disconnected")
+	add(s.reconnected, "collector-subscribed-again")
+	add(s.observers > 0, "observers-while-the-scripts-play")
+	add(s.observers >= 4, "observers>=4")
+	add(s.lateObserver, "observer-attached-mid-script")
+	add(s.slowObserver, "observer-with-static-windows")
+	add(s.paused, "observer-handler-blocked")
+	add(s.coalesced, "coalesced-delivery-observed")
+	add(s.coalescedAtPaused, "coalesced-delivery-at-blocked-observer")
+	add(s.coalescedAtomic, "coalesced-atomic-delivery-observed")
+	add(s.wildBeforeSync, "origin-wide-delete-inside-an-initial-walk")
+	add(s.whileDown, "observer-attached-while-target-disconnected")
+	add(s.pauseByBound, "handler-released-by-wall-clock-bound")
+	add(s.boundHit, "some-bounded-wait-ended-by-its-bound")
 	sort.Strings(l)
 	return l
 }
@@ -106,59 +146,16 @@ func scalarOf(v gn.Val) interface{} {
 // reference interprets the scripts: key (with target) -> Go scalar.
 func reference(sc *Scenario, st *stats) map[string]interface{} {
 	ref := map[string]interface{}{}
-	st.kinds = map[string]bool{}
+	st.kinds, st.breakVia, st.aimed = map[string]bool{}, map[string]bool{}, map[string]bool{}
 	servers, requests := map[int]int{}, map[int]int{}
 	for _, tg := range sc.Targets {
 		servers[tg.Server]++
 		requests[tg.Request]++
-		synced := false
+		m := newModel()
 		for _, o := range tg.Ops {
-			switch o.Kind {
-			case "sync":
-				synced = true
-			case "update":
-				ref[gn.Key(append([]string{tg.Name}, opKey(o)...))] = scalarOf(o.Val)
-				st.kinds[o.Val.Kind] = true
-				for _, e := range append(append([]gn.Elem{}, o.Prefix...), o.Path...) {
-					if len(e.Keys) > 0 && !o.Element {
-						st.keyed = true
-					}
-				}
-				if o.Origin != "" {
-					st.origin = true
-				}
-				if o.Element {
-					st.element = true
-				}
-			case "delete":
-				pat := append([]string{tg.Name}, opKey(o)...)
-				for k := range ref {
-					if gn.Matches(pat, gn.Unkey(k)) {
-						delete(ref, k)
-						if synced {
-							st.deleteAfterSync = true
-						}
-					}
-				}
-			case "multi":
-				// one notification: a delete and an update that the delete covers (a gNMI "replace").
-				// Its updates are applied, then its deletes; a delete never removes what the same
-				// notification wrote (same timestamp), only what was there before.
-				st.replaceNoti = true
-				own := gn.Key(append([]string{tg.Name}, opKey(o)...))
-				pat := append([]string{tg.Name}, delKeyOfMulti(o)...)
-				for k := range ref {
-					if k != own && gn.Matches(pat, gn.Unkey(k)) {
-						delete(ref, k)
-						if synced {
-							st.deleteAfterSync = true
-						}
-					}
-				}
-				ref[own] = scalarOf(o.Val)
-				st.kinds[o.Val.Kind] = true
-			}
+			m.apply(o, st)
 		}
+		m.leaves(tg.Name, ref)
 	}
 	for _, n := range servers {
 		if n > 1 {
@@ -185,40 +182,14 @@ func delKeyOfMulti(o Op) []string {
 	return append([]string{origin}, gn.IndexOfElems(all[:o.Cut], false)...)
 }
 
-func buildScript(tg Target, id string) []*pb.SubscribeResponse {
-	var out []*pb.SubscribeResponse
-	ts := time.Now().UnixNano()
-	for _, o := range tg.Ops {
-		ts += 1000
-		switch o.Kind {
-		case "sync":
-			out = append(out, &pb.SubscribeResponse{Response: &pb.SubscribeResponse_SyncResponse{SyncResponse: true}})
-		case "update":
-			n := &pb.Notification{Timestamp: ts, Prefix: gn.Path("", o.Origin, o.Prefix, o.Element, 0),
-				Update: []*pb.Update{{Path: gn.Path("", "", o.Path, o.Element, 0), Val: o.Val.TV()}}}
-			out = append(out, &pb.SubscribeResponse{Response: &pb.SubscribeResponse_Update{Update: n}})
-		case "delete":
-			n := &pb.Notification{Timestamp: ts, Prefix: gn.Path("", o.Origin, nil, false, 0), Delete: []*pb.Path{gn.Path("", "", o.Path, false, 0)}}
-			out = append(out, &pb.SubscribeResponse{Response: &pb.SubscribeResponse_Update{Update: n}})
-		case "multi":
-			all := append(append([]gn.Elem{}, o.Prefix...), o.Path...)
-			n := &pb.Notification{Timestamp: ts, Prefix: gn.Path("", o.Origin, nil, false, 0),
-				Delete: []*pb.Path{gn.Path("", "", all[:o.Cut], false, 0)},
-				Update: []*pb.Update{{Path: gn.Path("", "", all, false, 0), Val: o.Val.TV()}}}
-			out = append(out, &pb.SubscribeResponse{Response: &pb.SubscribeResponse_Update{Update: n}})
-		}
-	}
-	ts += 1000
-	out = append(out, &pb.SubscribeResponse{Response: &pb.SubscribeResponse_Update{Update: &pb.Notification{Timestamp: ts, Prefix: &pb.Path{},
-		Update: []*pb.Update{{Path: &pb.Path{Elem: []*pb.PathElem{{Name: sentinelName}}}, Val: &pb.TypedValue{Value: &pb.TypedValue_StringVal{StringVal: id}}}}}}})
-	return out
-}
-
 type violation struct{ class, msg string }
 
 func (v *violation) Error() string { return v.msg }
 
-type inconclusive struct{ msg string }
+type inconclusive struct {
+	msg  string
+	hang bool // the hang rule: alive, everything sent, and still incomplete after 20 s
+}
 
 func (i *inconclusive) Error() string { return i.msg }
 
@@ -259,7 +230,7 @@ func observe(addr, target string, want map[string]string, timeout time.Duration)
 	ctx, cancel := context.WithCancel(context.Background())
 	defer cancel()
 	errC := make(chan error, 1)
-	go func() { errC <- c.Subscribe(ctx, q) }()
+	go func() { errC <- c.Subscribe(ctx, q, gclient.Type) }()
 	select {
 	case <-done:
 	case err := <-errC:
@@ -267,7 +238,7 @@ func observe(addr, target string, want map[string]string, timeout time.Duration)
 	case <-time.After(timeout):
 		mu.Lock()
 		defer mu.Unlock()
-		return nil, &inconclusive{fmt.Sprintf("subscription for target %q: sentinel seen for %v of %d targets after %v", target, seen, len(want), timeout)}
+		return nil, &inconclusive{msg: fmt.Sprintf("subscription for target %q: sentinel seen for %v of %d targets after %v", target, seen, len(want), timeout), hang: true}
 	}
 	// the handler runs after the cache was updated: everything before the sentinel is in
 	return c.Leaves(), nil
@@ -519,16 +490,18 @@ func runOnce(e *env, workDir string, sc *Scenario, st *stats) error {
 	id := fmt.Sprintf("case-%d-%d", os.Getpid(), caseCounter)
 	dir, err := os.MkdirTemp(workDir, "case-")
 	if err != nil {
-		return &inconclusive{err.Error()}
+		return &inconclusive{msg: err.Error()}
 	}
 	defer os.RemoveAll(dir)
 	ref := reference(sc, st)
 	// scripted servers
+	h := newHub()
+	var colAddr string
 	var servers []*scriptedServer
 	for i := 0; i < sc.Servers; i++ {
-		s, err := startScripted(e)
+		s, err := startScripted(e, h, func() string { h.mu.Lock(); defer h.mu.Unlock(); return colAddr })
 		if err != nil {
-			return &inconclusive{err.Error()}
+			return &inconclusive{msg: err.Error()}
 		}
 		defer s.srv.Stop()
 		servers = append(servers, s)
@@ -542,26 +515,39 @@ func runOnce(e *env, workDir string, sc *Scenario, st *stats) error {
 	want := map[string]string{}
 	for _, tg := range sc.Targets {
 		s := servers[tg.Server%len(servers)]
-		s.scripts[tg.Name] = buildScript(tg, id)
+		s.addScript(tg, id)
 		cfg.Target[tg.Name] = &tpb.Target{Addresses: []string{s.addr}, Request: fmt.Sprintf("req%d", tg.Request%sc.Requests)}
 		want[tg.Name] = id
 	}
 	b, _ := prototext.Marshal(cfg)
 	cfgFile := filepath.Join(dir, "collector.cfg")
 	os.WriteFile(cfgFile, b, 0o644)
+	// the observers exist (not yet subscribed) before the collector can reach a target: scripts may wait for them
+	fr := newObservers(h, sc, id)
+	defer fr.stop()
 	col, err := startCollector(e, dir, cfgFile)
 	if err != nil {
-		return &inconclusive{err.Error()}
+		return &inconclusive{msg: err.Error()}
 	}
 	defer col.stop()
+	h.change(func() { colAddr = col.addr })
+
+	// observers that live while the scripts play (none in the "random" part)
+	fr.start(col.addr)
+	if err := fr.wait(col); err != nil {
+		return err
+	}
+	if err := fr.check(ref, st); err != nil {
+		return err
+	}
+	fr.stop()
 
 	// observer (a): the client library's cache, per target and for all targets
 	for _, tg := range sc.Targets {
 		leaves, err := observe(col.addr, tg.Name, map[string]string{tg.Name: id}, 20*time.Second)
 		if err != nil {
 			if !col.alive() {
-				lg, _ := os.ReadFile(col.log)
-				return &violation{"collector-died", fmt.Sprintf("the collector process died: %s", tailOf(string(lg), 1500))}
+				return col.died()
 			}
 			return err
 		}
@@ -641,17 +627,17 @@ func run(workDir string, sc *Scenario) (*stats, error) {
 	st := &stats{}
 	e, err := getEnv(workDir)
 	if err != nil {
-		return st, &inconclusive{err.Error()}
+		return st, &inconclusive{msg: err.Error()}
 	}
 	err = runOnce(e, workDir, sc, st)
-	if inc, ok := err.(*inconclusive); ok && strings.Contains(inc.msg, "sentinel") {
-		st.retried = true
+	if inc, ok := err.(*inconclusive); ok && inc.hang {
 		st2 := &stats{}
 		err2 := runOnce(e, workDir, sc, st2)
-		if inc2, ok := err2.(*inconclusive); ok && strings.Contains(inc2.msg, "sentinel") {
-			return st, &violation{"quiesced-but-incomplete", "twice in a row, 20s after every scripted stream had been sent completely: " + inc2.msg}
+		st2.retried = true
+		if inc2, ok := err2.(*inconclusive); ok && inc2.hang {
+			return st2, &violation{"quiesced-but-incomplete", "twice in a row, everything alive and 20s of silence: " + inc2.msg}
 		}
-		return st, err2
+		return st2, err2
 	}
 	return st, err
 }
